@@ -4,8 +4,11 @@ CONSTANT KindSets <- KindSetsThorough
 CONSTANT Placements <- PlacementsMid
 CONSTANT SubPatterns <- SubsQuick
 CONSTANT TurnVals <- TurnsThorough
+CONSTANT RangePatterns <- RangeNear
+CONSTANTS MaxHist = 0 ContinueFrom = "any"
 INVARIANT PosteriorIsBasePosterior
 INVARIANT InnovationInRange
 INVARIANT InnovationIsAngleResidual
 INVARIANT StackIsPermutation
 PROPERTY GroupKeepsPosterior
+PROPERTY PosteriorIgnoresHistory
